@@ -147,10 +147,17 @@ type Replay struct {
 	TraceHash      uint64          `json:"trace_hash"`
 	Minimised      bool            `json:"minimised"`
 	Rerun          bool            `json:"rerun,omitempty"` // no decision log: re-execute from the recorded seed (used when the run crashed the process)
-	OriginalSteps  int             `json:"original_steps"`
-	Steps          int             `json:"steps"`
-	Trace          []string        `json:"trace,omitempty"`
-	Describe       string          `json:"describe"`
+	// a range replay: the violation depends on state the code under test carried
+	// over from earlier runs in the same process (package-level variables), so the
+	// file re-executes runs RangeFrom..RangeTo-1 from their seeds, in order
+	IsRange       bool     `json:"is_range,omitempty"`
+	RangeFrom     int64    `json:"range_from,omitempty"`
+	RangeTo       int64    `json:"range_to,omitempty"`
+	Tier          string   `json:"tier,omitempty"`
+	OriginalSteps int      `json:"original_steps"`
+	Steps         int      `json:"steps"`
+	Trace         []string `json:"trace,omitempty"`
+	Describe      string   `json:"describe"`
 }
 
 // PropHash turns a property id into a seed component.
@@ -418,6 +425,22 @@ func writeHashes(path string, all, nt map[uint64]bool) {
 		buf = append(buf, b, byte(h), byte(h>>8), byte(h>>16), byte(h>>24), byte(h>>32), byte(h>>40), byte(h>>48), byte(h>>56))
 	}
 	f.Write(buf)
+}
+
+// RunRange re-executes runs [rp.RangeFrom, rp.RangeTo) in order and returns the
+// violation of the last one.
+func RunRange(h Harness, rp *Replay) (*simrt.Outcome, *Violation) {
+	menu := h.Faults()
+	var out *simrt.Outcome
+	var v *Violation
+	for i := rp.RangeFrom; i < rp.RangeTo; i++ {
+		r := simrt.NewRand(RunSeed(rp.Seed, h.ID(), i))
+		sc := h.Generate(r, rp.Tier)
+		cfg := DrawConfig(r, menu)
+		out, v = h.Execute(sc, cfg, &Stats{})
+		CheckOutcome(out)
+	}
+	return out, v
 }
 
 // DumpRun writes the replay file of run i without executing it: the scenario
